@@ -6,25 +6,25 @@ use crate::adapters::*;
 use crate::exec::*;
 use crate::ops::*;
 use crate::stats::*;
-use crate::tok::{self, m, Tok, *};
+use crate::tok::{self, m, *};
 
 /// One matrix size, both layouts. Ground truth for "(i, j)" is direct public-field access:
 /// `m.rows.<i>.<j>` for row-major, `m.cols.<j>.<i>` for column-major (Rust field semantics).
-pub trait MatFam: 'static {
+pub trait MatFam<L: Leaf>: 'static {
     const N: usize;
     type RM: 'static;
     type CM: 'static;
     type Flat: 'static;
     type Nested: 'static;
-    type Line: Item;
+    type Line: Item<Leaf = L>;
     type LK: Kind<Self::Line>;
 
     // harness plumbing (std only)
-    fn flat_from_vec(v: Vec<Tok>) -> Self::Flat;
-    fn flat_get(f: &Self::Flat, k: usize) -> &Tok;
+    fn flat_from_vec(v: Vec<L>) -> Self::Flat;
+    fn flat_get(f: &Self::Flat, k: usize) -> &L;
     fn nested_from_flat(f: Self::Flat) -> Self::Nested;
     fn flat_from_nested(f: Self::Nested) -> Self::Flat;
-    fn nested_get(f: &Self::Nested, a: usize, b: usize) -> &Tok;
+    fn nested_get(f: &Self::Nested, a: usize, b: usize) -> &L;
 
     // real vek code, row-major type
     fn rm_from_flat(f: Self::Flat, by_cols: bool) -> Self::RM;
@@ -32,12 +32,12 @@ pub trait MatFam: 'static {
     fn rm_into_flat(m: Self::RM, by_cols: bool) -> Self::Flat;
     fn rm_into_nested(m: Self::RM, by_cols: bool) -> Self::Nested;
     fn rm_new(f: Self::Flat) -> Self::RM;
-    fn rm_field(m: &Self::RM, i: usize, j: usize) -> &Tok;
-    fn rm_slice(m: &Self::RM) -> &[Tok];
-    fn rm_ptrs(m: &mut Self::RM) -> (*const Tok, *const Tok);
-    fn rm_slice_mut(m: &mut Self::RM) -> &mut [Tok];
-    fn rm_index(m: &Self::RM, i: usize, j: usize) -> &Tok;
-    fn rm_index_mut(m: &mut Self::RM, i: usize, j: usize) -> &mut Tok;
+    fn rm_field(m: &Self::RM, i: usize, j: usize) -> &L;
+    fn rm_slice(m: &Self::RM) -> &[L];
+    fn rm_ptrs(m: &mut Self::RM) -> (*const L, *const L);
+    fn rm_slice_mut(m: &mut Self::RM) -> &mut [L];
+    fn rm_index(m: &Self::RM, i: usize, j: usize) -> &L;
+    fn rm_index_mut(m: &mut Self::RM, i: usize, j: usize) -> &mut L;
     fn rm_transposed(m: Self::RM) -> Self::RM;
     fn rm_transpose(m: &mut Self::RM);
     fn rm_to_cm(m: Self::RM) -> Self::CM;
@@ -45,7 +45,7 @@ pub trait MatFam: 'static {
     fn rm_observe(m: &Self::RM, kind: u32);
     fn rm_clone(m: &Self::RM) -> Self::RM;
     fn rm_map_lines<G: FnMut(Self::Line) -> Self::Line>(m: Self::RM, g: G) -> Self::RM;
-    fn rm_map<G: FnMut(Tok) -> Tok>(m: Self::RM, g: G) -> Self::RM;
+    fn rm_map<G: FnMut(L) -> L>(m: Self::RM, g: G) -> Self::RM;
 
     // real vek code, column-major type
     fn cm_from_flat(f: Self::Flat, by_cols: bool) -> Self::CM;
@@ -53,12 +53,12 @@ pub trait MatFam: 'static {
     fn cm_into_flat(m: Self::CM, by_cols: bool) -> Self::Flat;
     fn cm_into_nested(m: Self::CM, by_cols: bool) -> Self::Nested;
     fn cm_new(f: Self::Flat) -> Self::CM;
-    fn cm_field(m: &Self::CM, i: usize, j: usize) -> &Tok;
-    fn cm_slice(m: &Self::CM) -> &[Tok];
-    fn cm_ptrs(m: &mut Self::CM) -> (*const Tok, *const Tok);
-    fn cm_slice_mut(m: &mut Self::CM) -> &mut [Tok];
-    fn cm_index(m: &Self::CM, i: usize, j: usize) -> &Tok;
-    fn cm_index_mut(m: &mut Self::CM, i: usize, j: usize) -> &mut Tok;
+    fn cm_field(m: &Self::CM, i: usize, j: usize) -> &L;
+    fn cm_slice(m: &Self::CM) -> &[L];
+    fn cm_ptrs(m: &mut Self::CM) -> (*const L, *const L);
+    fn cm_slice_mut(m: &mut Self::CM) -> &mut [L];
+    fn cm_index(m: &Self::CM, i: usize, j: usize) -> &L;
+    fn cm_index_mut(m: &mut Self::CM, i: usize, j: usize) -> &mut L;
     fn cm_transposed(m: Self::CM) -> Self::CM;
     fn cm_transpose(m: &mut Self::CM);
     fn cm_to_rm(m: Self::CM) -> Self::RM;
@@ -66,7 +66,7 @@ pub trait MatFam: 'static {
     fn cm_observe(m: &Self::CM, kind: u32);
     fn cm_clone(m: &Self::CM) -> Self::CM;
     fn cm_map_lines<G: FnMut(Self::Line) -> Self::Line>(m: Self::CM, g: G) -> Self::CM;
-    fn cm_map<G: FnMut(Tok) -> Tok>(m: Self::CM, g: G) -> Self::CM;
+    fn cm_map<G: FnMut(L) -> L>(m: Self::CM, g: G) -> Self::CM;
 }
 
 fn observe_any<M: std::fmt::Debug + std::fmt::Display + std::hash::Hash + PartialEq>(m: &M, kind: u32) {
@@ -101,20 +101,20 @@ macro_rules! line_field {
 macro_rules! matfam {
     ($F:ident, $n:expr, $nn:expr, $Mat:ident, $Vec:ident, $LK:ident, [$($f:ident)+], [$($i:tt)+], [$($nm:ident)+]) => {
         pub struct $F;
-        impl MatFam for $F {
+        impl<L: Leaf> MatFam<L> for $F {
             const N: usize = $n;
-            type RM = vek::mat::repr_c::row_major::$Mat<Tok>;
-            type CM = vek::mat::repr_c::column_major::$Mat<Tok>;
-            type Flat = [Tok; $nn];
-            type Nested = [[Tok; $n]; $n];
-            type Line = vek::vec::repr_c::$Vec<Tok>;
+            type RM = vek::mat::repr_c::row_major::$Mat<L>;
+            type CM = vek::mat::repr_c::column_major::$Mat<L>;
+            type Flat = [L; $nn];
+            type Nested = [[L; $n]; $n];
+            type Line = vek::vec::repr_c::$Vec<L>;
             type LK = $LK;
 
-            fn flat_from_vec(v: Vec<Tok>) -> Self::Flat {
-                match <[Tok; $nn]>::try_from(v) { Ok(a) => a, Err(_) => panic!("harness: flat size") }
+            fn flat_from_vec(v: Vec<L>) -> Self::Flat {
+                match <[L; $nn]>::try_from(v) { Ok(a) => a, Err(_) => panic!("harness: flat size") }
             }
             #[inline]
-            fn flat_get(f: &Self::Flat, k: usize) -> &Tok { &f[k] }
+            fn flat_get(f: &Self::Flat, k: usize) -> &L { &f[k] }
             fn nested_from_flat(f: Self::Flat) -> Self::Nested {
                 let mut it = f.into_iter();
                 std::array::from_fn(|_| std::array::from_fn(|_| it.next().expect("harness: nested")))
@@ -124,7 +124,7 @@ macro_rules! matfam {
                 std::array::from_fn(|_| it.next().expect("harness: flat"))
             }
             #[inline]
-            fn nested_get(f: &Self::Nested, a: usize, b: usize) -> &Tok { &f[a][b] }
+            fn nested_get(f: &Self::Nested, a: usize, b: usize) -> &L { &f[a][b] }
 
             fn rm_from_flat(f: Self::Flat, by_cols: bool) -> Self::RM {
                 if by_cols { Self::RM::from_col_array(f) } else { Self::RM::from_row_array(f) }
@@ -143,15 +143,15 @@ macro_rules! matfam {
                 Self::RM::new($($nm),+)
             }
             #[inline]
-            fn rm_field(m: &Self::RM, i: usize, j: usize) -> &Tok {
+            fn rm_field(m: &Self::RM, i: usize, j: usize) -> &L {
                 let line = match i { $($i => &m.rows.$f,)+ _ => panic!("harness: row index") };
                 line_field!(line, j, [$($f)+], [$($i)+])
             }
-            fn rm_slice(m: &Self::RM) -> &[Tok] { m.as_row_slice() }
-            fn rm_ptrs(m: &mut Self::RM) -> (*const Tok, *const Tok) { (m.as_row_ptr(), m.as_mut_row_ptr() as *const Tok) }
-            fn rm_slice_mut(m: &mut Self::RM) -> &mut [Tok] { m.as_mut_row_slice() }
-            fn rm_index(m: &Self::RM, i: usize, j: usize) -> &Tok { &m[(i, j)] }
-            fn rm_index_mut(m: &mut Self::RM, i: usize, j: usize) -> &mut Tok { &mut m[(i, j)] }
+            fn rm_slice(m: &Self::RM) -> &[L] { m.as_row_slice() }
+            fn rm_ptrs(m: &mut Self::RM) -> (*const L, *const L) { (m.as_row_ptr(), m.as_mut_row_ptr() as *const L) }
+            fn rm_slice_mut(m: &mut Self::RM) -> &mut [L] { m.as_mut_row_slice() }
+            fn rm_index(m: &Self::RM, i: usize, j: usize) -> &L { &m[(i, j)] }
+            fn rm_index_mut(m: &mut Self::RM, i: usize, j: usize) -> &mut L { &mut m[(i, j)] }
             fn rm_transposed(m: Self::RM) -> Self::RM { m.transposed() }
             fn rm_transpose(m: &mut Self::RM) { m.transpose() }
             fn rm_to_cm(m: Self::RM) -> Self::CM { Self::CM::from(m) }
@@ -159,7 +159,7 @@ macro_rules! matfam {
             fn rm_observe(m: &Self::RM, kind: u32) { observe_any(m, kind) }
             fn rm_clone(m: &Self::RM) -> Self::RM { m.clone() }
             fn rm_map_lines<G: FnMut(Self::Line) -> Self::Line>(m: Self::RM, g: G) -> Self::RM { m.map_rows(g) }
-            fn rm_map<G: FnMut(Tok) -> Tok>(m: Self::RM, g: G) -> Self::RM { m.map(g) }
+            fn rm_map<G: FnMut(L) -> L>(m: Self::RM, g: G) -> Self::RM { m.map(g) }
 
             fn cm_from_flat(f: Self::Flat, by_cols: bool) -> Self::CM {
                 if by_cols { Self::CM::from_col_array(f) } else { Self::CM::from_row_array(f) }
@@ -178,15 +178,15 @@ macro_rules! matfam {
                 Self::CM::new($($nm),+)
             }
             #[inline]
-            fn cm_field(m: &Self::CM, i: usize, j: usize) -> &Tok {
+            fn cm_field(m: &Self::CM, i: usize, j: usize) -> &L {
                 let line = match j { $($i => &m.cols.$f,)+ _ => panic!("harness: col index") };
                 line_field!(line, i, [$($f)+], [$($i)+])
             }
-            fn cm_slice(m: &Self::CM) -> &[Tok] { m.as_col_slice() }
-            fn cm_ptrs(m: &mut Self::CM) -> (*const Tok, *const Tok) { (m.as_col_ptr(), m.as_mut_col_ptr() as *const Tok) }
-            fn cm_slice_mut(m: &mut Self::CM) -> &mut [Tok] { m.as_mut_col_slice() }
-            fn cm_index(m: &Self::CM, i: usize, j: usize) -> &Tok { &m[(i, j)] }
-            fn cm_index_mut(m: &mut Self::CM, i: usize, j: usize) -> &mut Tok { &mut m[(i, j)] }
+            fn cm_slice(m: &Self::CM) -> &[L] { m.as_col_slice() }
+            fn cm_ptrs(m: &mut Self::CM) -> (*const L, *const L) { (m.as_col_ptr(), m.as_mut_col_ptr() as *const L) }
+            fn cm_slice_mut(m: &mut Self::CM) -> &mut [L] { m.as_mut_col_slice() }
+            fn cm_index(m: &Self::CM, i: usize, j: usize) -> &L { &m[(i, j)] }
+            fn cm_index_mut(m: &mut Self::CM, i: usize, j: usize) -> &mut L { &mut m[(i, j)] }
             fn cm_transposed(m: Self::CM) -> Self::CM { m.transposed() }
             fn cm_transpose(m: &mut Self::CM) { m.transpose() }
             fn cm_to_rm(m: Self::CM) -> Self::RM { Self::RM::from(m) }
@@ -194,7 +194,7 @@ macro_rules! matfam {
             fn cm_observe(m: &Self::CM, kind: u32) { observe_any(m, kind) }
             fn cm_clone(m: &Self::CM) -> Self::CM { m.clone() }
             fn cm_map_lines<G: FnMut(Self::Line) -> Self::Line>(m: Self::CM, g: G) -> Self::CM { m.map_cols(g) }
-            fn cm_map<G: FnMut(Tok) -> Tok>(m: Self::CM, g: G) -> Self::CM { m.map(g) }
+            fn cm_map<G: FnMut(L) -> L>(m: Self::CM, g: G) -> Self::CM { m.map(g) }
         }
     };
 }
@@ -203,7 +203,7 @@ matfam!(Fam2, 2, 4, Mat2, Vec2, KVec2, [x y], [0 1], [m0 m1 m2 m3]);
 matfam!(Fam3, 3, 9, Mat3, Vec3, KVec3, [x y z], [0 1 2], [m0 m1 m2 m3 m4 m5 m6 m7 m8]);
 matfam!(Fam4, 4, 16, Mat4, Vec4, KVec4, [x y z w], [0 1 2 3], [m0 m1 m2 m3 m4 m5 m6 m7 m8 m9 m10 m11 m12 m13 m14 m15]);
 
-pub enum MForm<F: MatFam> {
+pub enum MForm<F: MatFam<L>, L: Leaf> {
     Flat(F::Flat),
     Nested(F::Nested),
     RM(F::RM),
@@ -211,8 +211,8 @@ pub enum MForm<F: MatFam> {
     Gone,
 }
 
-pub struct MatExec<F: MatFam> {
-    pub form: MForm<F>,
+pub struct MatExec<F: MatFam<L>, L: Leaf> {
+    pub form: MForm<F, L>,
     /// ids in storage order while Flat / Nested (nested[a][b] = list[a*n+b])
     pub list: Vec<u32>,
     /// ids by (row, column) while a matrix
@@ -222,25 +222,24 @@ pub struct MatExec<F: MatFam> {
     pub entered: u8,
 }
 
-impl<F: MatFam> MatExec<F> {
+impl<F: MatFam<L>, L: Leaf> MatExec<F, L> {
     pub fn new(home_cm: bool) -> Self {
         MatExec { form: MForm::Gone, list: Vec::new(), grid: Vec::new(), home_cm, entered: 2 }
     }
 
     pub fn start_fresh(&mut self, st: &mut Stats) {
         let nn = F::N * F::N;
-        let toks: Vec<Tok> = (0..nn as u32).map(|p| Tok::new(p * 4, OWN_MAIN)).collect();
+        let toks: Vec<L> = (0..nn as u32).map(|p| L::mk(p * 4, OWN_MAIN)).collect();
         st.elements_created += nn as u64;
-        self.list = toks.iter().map(|t| t.id).collect();
+        self.list = toks.iter().map(|t| t.lid()).collect();
         self.form = MForm::Flat(F::flat_from_vec(toks));
     }
 
-    fn read(t: &Tok) -> u32 {
-        tok::check_read("read", t.id, t.val);
-        t.id
+    fn read(t: &L) -> u32 {
+        t.grp().first()
     }
 
-    fn field(&self, i: usize, j: usize) -> Option<&Tok> {
+    fn field(&self, i: usize, j: usize) -> Option<&L> {
         match &self.form {
             MForm::RM(m) => Some(F::rm_field(m, i, j)),
             MForm::CM(m) => Some(F::cm_field(m, i, j)),
@@ -346,7 +345,7 @@ impl<F: MatFam> MatExec<F> {
             Err(Thrown::Genuine(msg)) => tok::raise(V10_UNEXPECTED_PANIC, format!("drop of a matrix panicked: {}", msg)),
         }
         for id in ids {
-            match tok::state_of(id) {
+            match if tok::gone(id) { Some(St::Dropped) } else { tok::state_of(id) } {
                 Some(St::Dropped) => {}
                 Some(St::Live) if fired => tok::set_state(id, St::MayLeak),
                 Some(St::Live) => {
@@ -433,9 +432,9 @@ impl<F: MatFam> MatExec<F> {
                 let what = if isnew { "Mat::new" } else if by_cols { "from_col_array" } else { "from_row_array" };
                 let r = guard_nopanic(what, 0, 0, move || {
                     if cm {
-                        MForm::<F>::CM(if isnew { F::cm_new(f) } else { F::cm_from_flat(f, by_cols) })
+                        MForm::<F, L>::CM(if isnew { F::cm_new(f) } else { F::cm_from_flat(f, by_cols) })
                     } else {
-                        MForm::<F>::RM(if isnew { F::rm_new(f) } else { F::rm_from_flat(f, by_cols) })
+                        MForm::<F, L>::RM(if isnew { F::rm_new(f) } else { F::rm_from_flat(f, by_cols) })
                     }
                 });
                 if let Some(form) = r {
@@ -458,9 +457,9 @@ impl<F: MatFam> MatExec<F> {
                 let what = if by_cols { "from_col_arrays" } else { "from_row_arrays" };
                 let r = guard_nopanic(what, 0, 0, move || {
                     if cm {
-                        MForm::<F>::CM(F::cm_from_nested(f, by_cols))
+                        MForm::<F, L>::CM(F::cm_from_nested(f, by_cols))
                     } else {
-                        MForm::<F>::RM(F::rm_from_nested(f, by_cols))
+                        MForm::<F, L>::RM(F::rm_from_nested(f, by_cols))
                     }
                 });
                 if let Some(form) = r {
@@ -487,16 +486,16 @@ impl<F: MatFam> MatExec<F> {
                 let r = guard_nopanic(what, 0, 0, move || match form {
                     MForm::RM(mm) => {
                         if nested {
-                            MForm::<F>::Nested(F::rm_into_nested(mm, by_cols))
+                            MForm::<F, L>::Nested(F::rm_into_nested(mm, by_cols))
                         } else {
-                            MForm::<F>::Flat(F::rm_into_flat(mm, by_cols))
+                            MForm::<F, L>::Flat(F::rm_into_flat(mm, by_cols))
                         }
                     }
                     MForm::CM(mm) => {
                         if nested {
-                            MForm::<F>::Nested(F::cm_into_nested(mm, by_cols))
+                            MForm::<F, L>::Nested(F::cm_into_nested(mm, by_cols))
                         } else {
-                            MForm::<F>::Flat(F::cm_into_flat(mm, by_cols))
+                            MForm::<F, L>::Flat(F::cm_into_flat(mm, by_cols))
                         }
                     }
                     _ => unreachable!(),
@@ -541,8 +540,8 @@ impl<F: MatFam> MatExec<F> {
                 }
                 st.probes[P_MAT_SWITCH_LAYOUT] += 1;
                 let r = guard_nopanic("From<other layout>", 0, 0, move || match form {
-                    MForm::RM(mm) => MForm::<F>::CM(F::rm_to_cm(mm)),
-                    MForm::CM(mm) => MForm::<F>::RM(F::cm_to_rm(mm)),
+                    MForm::RM(mm) => MForm::<F, L>::CM(F::rm_to_cm(mm)),
+                    MForm::CM(mm) => MForm::<F, L>::RM(F::cm_to_rm(mm)),
                     _ => unreachable!(),
                 });
                 if let Some(form) = r {
@@ -559,13 +558,13 @@ impl<F: MatFam> MatExec<F> {
                     return false;
                 }
                 let r = guard_nopanic("transpose", 0, 0, move || match form {
-                    MForm::RM(mut mm) => MForm::<F>::RM(if inplace {
+                    MForm::RM(mut mm) => MForm::<F, L>::RM(if inplace {
                         F::rm_transpose(&mut mm);
                         mm
                     } else {
                         F::rm_transposed(mm)
                     }),
-                    MForm::CM(mut mm) => MForm::<F>::CM(if inplace {
+                    MForm::CM(mut mm) => MForm::<F, L>::CM(if inplace {
                         F::cm_transpose(&mut mm);
                         mm
                     } else {
@@ -595,10 +594,10 @@ impl<F: MatFam> MatExec<F> {
                 let nn = n * n;
                 // entry k of as_row_slice is (k / n, k % n); of as_col_slice is (k % n, k / n)
                 let pos = |k: usize| if cm { (k % n, k / n) } else { (k / n, k % n) };
-                let fields: Vec<*const Tok> = (0..nn)
+                let fields: Vec<*const L> = (0..nn)
                     .map(|k| {
                         let (i, j) = pos(k);
-                        self.field(i, j).unwrap() as *const Tok
+                        self.field(i, j).unwrap() as *const L
                     })
                     .collect();
                 let p = (op.b & 0xff) as usize % nn;
@@ -611,14 +610,14 @@ impl<F: MatFam> MatExec<F> {
                     st.elements_created += 1;
                     let (i, j) = pos(p);
                     tok::set_owner(self.grid[i * n + j], OWN_DOOMED);
-                    Some(Tok::new(400 + p as u32, OWN_MAIN))
+                    Some(L::mk(400 + p as u32, OWN_MAIN))
                 } else {
                     None
                 };
-                let newid = newt.as_ref().map(|t| t.id);
+                let newid = newt.as_ref().map(|t| t.lid());
                 let form = &mut self.form;
                 let _ = guard_nopanic(what, m(OWN_DOOMED), 0, || {
-                    let check_alias = |s: &[Tok]| -> bool {
+                    let check_alias = |s: &[L]| -> bool {
                         if s.len() != nn {
                             tok::raise(V9_ALIAS, format!("{} has length {} on a {}x{} matrix", what, s.len(), n, n));
                             return false;
@@ -690,7 +689,7 @@ impl<F: MatFam> MatExec<F> {
                         let (i, j) = pos(p);
                         let old = self.grid[i * n + j];
                         self.grid[i * n + j] = newid.unwrap();
-                        if tok::state_of(old) != Some(St::Dropped) && !tok::has_violation() {
+                        if !tok::gone(old) && !tok::has_violation() {
                             tok::raise(V7_LEAK, format!("replacement through {}: old element id {} was not dropped", what, old));
                         }
                     }
@@ -707,19 +706,19 @@ impl<F: MatFam> MatExec<F> {
                 }
                 let i = (op.b & 0xff) as usize % n;
                 let j = ((op.b >> 8) & 0xff) as usize % n;
-                let fieldp = self.field(i, j).unwrap() as *const Tok;
+                let fieldp = self.field(i, j).unwrap() as *const L;
                 let replace = op.a & 1 == 1;
                 let mut newt = if replace {
                     st.elements_created += 1;
                     tok::set_owner(self.grid[i * n + j], OWN_DOOMED);
-                    Some(Tok::new(500, OWN_MAIN))
+                    Some(L::mk(500, OWN_MAIN))
                 } else {
                     None
                 };
-                let newid = newt.as_ref().map(|t| t.id);
+                let newid = newt.as_ref().map(|t| t.lid());
                 let form = &mut self.form;
                 let _ = guard_nopanic("m[(i, j)]", m(OWN_DOOMED), 0, || {
-                    let p: *const Tok = match form {
+                    let p: *const L = match form {
                         MForm::RM(mm) => F::rm_index(mm, i, j),
                         MForm::CM(mm) => F::cm_index(mm, i, j),
                         _ => unreachable!(),
@@ -743,7 +742,7 @@ impl<F: MatFam> MatExec<F> {
                 if replace {
                     let old = self.grid[i * n + j];
                     self.grid[i * n + j] = newid.unwrap();
-                    if tok::state_of(old) != Some(St::Dropped) && !tok::has_violation() {
+                    if !tok::gone(old) && !tok::has_violation() {
                         tok::raise(V7_LEAK, format!("replacement through IndexMut: old element id {} was not dropped", old));
                     }
                 }
@@ -799,8 +798,8 @@ impl<F: MatFam> MatExec<F> {
                 }
                 let form = &self.form;
                 let (r, fired) = guard(m(OWN_FRESH), m(OWN_MAIN), if op.f > 0 { Some((Cb::Observe, op.f)) } else { None }, || match form {
-                    MForm::RM(mm) => MForm::<F>::RM(F::rm_clone(mm)),
-                    MForm::CM(mm) => MForm::<F>::CM(F::cm_clone(mm)),
+                    MForm::RM(mm) => MForm::<F, L>::RM(F::rm_clone(mm)),
+                    MForm::CM(mm) => MForm::<F, L>::CM(F::cm_clone(mm)),
                     _ => unreachable!(),
                 });
                 let fresh = tok::fresh_in_op();
@@ -814,8 +813,8 @@ impl<F: MatFam> MatExec<F> {
                                     MForm::CM(mm) => F::cm_field(mm, i, j),
                                     _ => unreachable!(),
                                 };
-                                tok::check_read("read", t.id, t.val);
-                                if !fresh.contains(&t.id) || tok::origin_of(t.id) != Some(Origin::Clone) || tok::val_of(t.id) != tok::val_of(self.grid[i * n + j]) {
+                                let tid = t.grp().first();
+                                if !fresh.contains(&tid) || tok::origin_of(tid) != Some(Origin::Clone) || tok::val_of(tid) != tok::val_of(self.grid[i * n + j]) {
                                     ok = false;
                                 }
                             }
@@ -830,7 +829,7 @@ impl<F: MatFam> MatExec<F> {
                         }
                         let _ = guard_nopanic("drop of the cloned matrix", m(OWN_CLONE), 0, move || drop(c));
                         for id in &fresh {
-                            if tok::state_of(*id) != Some(St::Dropped) {
+                            if !tok::gone(*id) {
                                 tok::raise(V7_LEAK, format!("drop of a cloned matrix: id {} was not dropped", id));
                                 return true;
                             }
@@ -840,7 +839,7 @@ impl<F: MatFam> MatExec<F> {
                         st.fault_fired[F_OBSERVE_PANIC] += 1;
                         st.probes[P_CLONE_PANIC_FIRED] += 1;
                         for id in &fresh {
-                            if tok::state_of(*id) != Some(St::Dropped) {
+                            if !tok::gone(*id) {
                                 tok::raise(V7_LEAK, format!("clone of a matrix unwound: fresh element id {} leaked", id));
                                 return true;
                             }
@@ -870,9 +869,9 @@ impl<F: MatFam> MatExec<F> {
                 let (r, _) = {
                     let w = &mut w;
                     guard(if op.f > 0 { m(OWN_MAIN) } else { 0 }, 0, None, move || match form {
-                        MForm::RM(mm) => MForm::<F>::RM(if per_elem {
+                        MForm::RM(mm) => MForm::<F, L>::RM(if per_elem {
                             F::rm_map(mm, |t| {
-                                w.hit(Grp::one(t.id));
+                                w.hit(Grp::one(t.lid()));
                                 t
                             })
                         } else {
@@ -881,9 +880,9 @@ impl<F: MatFam> MatExec<F> {
                                 l
                             })
                         }),
-                        MForm::CM(mm) => MForm::<F>::CM(if per_elem {
+                        MForm::CM(mm) => MForm::<F, L>::CM(if per_elem {
                             F::cm_map(mm, |t| {
-                                w.hit(Grp::one(t.id));
+                                w.hit(Grp::one(t.lid()));
                                 t
                             })
                         } else {
@@ -914,7 +913,7 @@ impl<F: MatFam> MatExec<F> {
                         st.probes[P_CLOSURE_PANIC_FIRED] += 1;
                         // R-unwind, closure panic: everything is destroyed exactly once on the way out
                         for id in self.grid.drain(..) {
-                            if tok::state_of(id) != Some(St::Dropped) {
+                            if !tok::gone(id) {
                                 tok::raise(V7_LEAK, format!("{} unwound: id {} was not dropped", what, id));
                                 break;
                             }
